@@ -264,4 +264,131 @@ def pivs : List SObs → List Nat
   | .sent o :: r => (match o.piv with | some p => [p] | none => []) ++ pivs r
   | .resumed _ :: r => pivs r
 
+/-! ### Datagram layer: the length of the ciphertext
+
+`coap_oscore_decrypt_pdu` starts with `if (pdu->data == NULL) return NULL;` — a protected message without any payload
+is dropped before the OSCORE option is even decoded.  Every other length reaches the sequence number check and the
+AEAD; the AEAD (oracle) cannot verify a ciphertext that is not longer than its tag (`Dgram.wf`). -/
+
+/-- `cose_tag_len(COSE_ALGORITHM_AES_CCM_16_64_128)`. -/
+abbrev TAG_LEN : Nat := 8
+
+/-- A protected message as it arrives: what its OSCORE option claims / whether the AEAD verifies it (`msg`), and the
+length of its ciphertext, 0 = no payload. -/
+structure Dgram where
+  msg : Msg
+  clen : Nat
+  deriving DecidableEq, Repr
+
+/-- The AEAD oracle is consistent with the ciphertext length: what verifies is longer than the tag. -/
+def Dgram.wf (d : Dgram) : Prop := d.msg.authentic = true → d.clen > TAG_LEN
+
+/-- `coap_oscore_decrypt_pdu` on one datagram. -/
+def stepD (cfg : Cfg) (r : Recip) (d : Dgram) : Recip × Verdict :=
+  -- if (pdu->data == NULL) { ...; return NULL; }
+  if d.clen = 0 then (r, .drop) else step cfg r d.msg
+
+/-! ### Which key and nonce a message is protected with
+
+`coap_oscore_new_pdu_encrypted_lkd` (requests, responses, notifications) together with the association bookkeeping of
+`coap_oscore_decrypt_pdu` (request path), transcribed from the tree after the fixes ae365ed (a response to an Observe
+request always uses the Sender Sequence Number) and the one that sets the association up only after the request has
+been verified.  The key is always the Sender Key; the nonce is a function of (id, Partial IV): the endpoint's own
+Sender ID with its sequence number (`Nonce.own`), or the peer's id with the Partial IV of the request
+(`Nonce.ofReq`, `association->nonce`). -/
+
+/-- `oscore_association_t`: the Partial IV (hence nonce and AAD) of the request, `is_observe`. -/
+structure Assoc where
+  reqPiv : Nat
+  observe : Bool
+  deriving DecidableEq, Repr
+
+inductive Nonce where
+  | own (piv : Nat)
+  | ofReq (piv : Nat)
+  deriving DecidableEq, Repr
+
+/-- An endpoint that is server and client on one security context: recipient context, sender context, and the
+associations of its session (token ↦ association). -/
+structure Endp where
+  rcp : Recip
+  snd : Snd
+  assocs : Nat → Option Assoc
+
+def Endp.fresh : Endp := { rcp := Recip.fresh, snd := { seq := 0, next := 0 }, assocs := fun _ => none }
+
+inductive NOp where
+  | reqIn (token : Nat) (ev : Ev) (observe : Bool)      -- a protected request (inner Observe option or not) arrives
+  | sendReq                                             -- the endpoint protects a request of its own
+  | sendRsp (token : Nat) (observeOpt : Bool) (sendPiv : Bool)   -- it protects a response (Observe option? OSCORE_SEND_PARTIAL_IV?)
+  deriving DecidableEq, Repr
+
+inductive NObs where
+  | verdict (v : Verdict)
+  | sent (piv : Option Nat) (nonce : Nonce)     -- Partial IV in the OSCORE option, nonce handed to the AEAD
+  | err
+  deriving DecidableEq, Repr
+
+/-- Did the request get past "8.2 Step 3" and the decryption (the code after it sets the association up)? -/
+def decrypted (cfg : Cfg) (r : Recip) (ev : Ev) : Bool :=
+  let validated := !r.init || !cfg.b12
+  match (if validated then validate cfg r ev.piv else .ok r) with
+  | .ok _ => ev.authentic
+  | _ => false
+
+def setAssoc (a : Nat → Option Assoc) (t : Nat) (v : Option Assoc) : Nat → Option Assoc :=
+  fun t' => if t' = t then v else a t'
+
+/-- the part of `coap_oscore_new_pdu_encrypted_lkd` that takes the Partial IV from the Sender Sequence Number:
+`none` = `oscore_increment_sender_seq` refused (the counter is incremented all the same). -/
+def ownPiv (s : Snd) : Snd × Option Nat :=
+  let x := protect 1 s
+  (x.1, x.2.piv)
+
+def nstep (cfg : Cfg) (e : Endp) : NOp → Endp × NObs
+  | .reqIn t ev obs =>
+    let x := recv cfg e.rcp ev
+    -- after a successful decryption: find / refresh / create the association of the token (is_observe kept / 0)
+    let a1 := if decrypted cfg e.rcp ev then
+        setAssoc e.assocs t (some { reqPiv := ev.piv, observe := match e.assocs t with | some a => a.observe | none => false })
+      else e.assocs
+    -- inner Observe option of an accepted request: association->is_observe = 1
+    let a2 := if x.2 = .acc ∧ obs then
+        (match a1 t with | some a => setAssoc a1 t (some { a with observe := true }) | none => a1)
+      else a1
+    ({ e with rcp := x.1, assocs := a2 }, .verdict x.2)
+  | .sendReq =>
+    let x := ownPiv e.snd
+    match x.2 with
+    | none => ({ e with snd := x.1 }, .err)
+    | some p => ({ e with snd := x.1 }, .sent (some p) (.own p))
+  | .sendRsp t obsOpt sendPiv =>
+    match e.assocs t with
+    | none => (e, .err)                                   -- association == NULL: goto error
+    | some a =>
+      -- if (association->is_observe && !doing_observe && send_partial_iv == OSCORE_SEND_NO_IV) send_partial_iv = OSCORE_SEND_PARTIAL_IV;
+      let sendPiv := sendPiv || (a.observe && !obsOpt)
+      if obsOpt || sendPiv then
+        let x := ownPiv e.snd
+        match x.2 with
+        | none => ({ e with snd := x.1 }, .err)
+        | some p =>
+          -- if (association && association->is_observe == 0) oscore_delete_association()
+          ({ e with snd := x.1, assocs := if a.observe then e.assocs else setAssoc e.assocs t none }, .sent (some p) (.own p))
+      else
+        -- 8.3 Step 3: nonce of the request; no Partial IV in the option
+        ({ e with assocs := if a.observe then e.assocs else setAssoc e.assocs t none }, .sent none (.ofReq a.reqPiv))
+
+def nrun (cfg : Cfg) : Endp → List NOp → List NObs
+  | _, [] => []
+  | e, op :: ops =>
+    let x := nstep cfg e op
+    x.2 :: nrun cfg x.1 ops
+
+/-- The nonces handed to the AEAD (always with the Sender Key) in a history. -/
+def nonces : List NObs → List Nonce
+  | [] => []
+  | .sent _ n :: r => n :: nonces r
+  | _ :: r => nonces r
+
 end Coap.Replay
